@@ -384,7 +384,7 @@ func reorgNet(m *mon.M, r *rand.Rand, lockup bool) {
 func buildHistoryNoImages(a *hnet.Activity, nBlocks int) ([]*hnet.Mined, error) {
 	var out []*hnet.Mined
 	for i := 0; i < nBlocks; i++ {
-		mm, err := a.Step(hnet.MineOpts{WantOrder: -1})
+		mm, err := a.Step(hnet.MineOpts{WantOrder: historyOrder(i)})
 		if err != nil {
 			return out, fmt.Errorf("history block %d: %v", i, err)
 		}
